@@ -667,3 +667,14 @@ func (s *splitmix) intn(n int) int {
 	}
 	return int(s.next() % uint64(n))
 }
+
+// Poison overwrites a C-allocated buffer right before it is freed (inserted by the rewriter into
+// cmem.CArray.Free): a later read through a dangling slice then sees 0xDD bytes.
+func Poison(body []byte, addr uintptr) {
+	if addr == 0 {
+		return
+	}
+	for i := range body {
+		body[i] = 0xDD
+	}
+}
